@@ -10,6 +10,7 @@ from pyvc.values import cur, mk_bool, mk_int
 from contracts.proto_widget import *
 from contracts.C08_focus import PI, PILE, PINL, item_at, n_items, pile_ri
 
+import urwid
 from urwid.widget import pile as _pile
 
 B = 2**26  # float-as-rational bound (DESIGN §3.6)
@@ -38,6 +39,9 @@ def pile_item_fixed(p, j, maxcol, focus):
     w, (f, h) = item_at(p, j)
     foc = both(focus, eq(_focus_widget(p), w))
     rows = W.call_quiet(st, w, "rows", dict(size=(maxcol,), focus=foc))
+    # a packed child that is fixed-only is handed the size () by get_rows_sizes: it takes the rows it packs to
+    flowish = either(sizing_has(w, urwid.Sizing.FLOW), neg(sizing_has(w, urwid.Sizing.FIXED)))
+    rows = ite(flowish, rows, W.call_quiet(st, w, "pack", dict(size=(), focus=foc))[1])
     return ite(f == "pack", rows, ite(f == "given", h.val, 0))
 
 
